@@ -19,7 +19,7 @@ def plan(ctx):
     rng, tier = ctx["rng"], ctx["tier"]
     from checks import gen_proc
     from checks.common import corpus
-    n = 60 if tier == "quick" else 4000
+    n = 60 if tier == "quick" else 1800     # (a thorough run of this check takes 20-30 minutes on an idle 16-core machine)
     seqs = [("mal%d" % i, gen_proc.malformed_history(rng)) for i in range(n)]
     # application descriptions whose strings sit exactly at, just below and just above the 255-byte host limit, in every field
     # that is length-limited or copied on the processor goroutine, with several fills (ASCII, multi-byte runes straddling the
